@@ -233,6 +233,12 @@ def run_case(case):
         rig.take_indications()
         wire0 = len(rig.wire_bytes)
         exc = None
+        # bytes of the peer's next PDU that have been read but not framed yet: an action has no
+        # business with them (unless it closes the connection)
+        marker = b'\x07\x00\x00\x00\x00\x04\x00'
+        had_buf = hasattr(prov, 'raw_pdu') and isinstance(prov.raw_pdu, (bytes, bytearray))
+        if had_buf:
+            prov.raw_pdu = marker
         try:
             sm.action(getattr(fsm.Events, 'EVT_' + event[3:]))
         except Exception as e:  # pylint: disable=broad-except
@@ -252,6 +258,9 @@ def run_case(case):
         res['sample'] = {'case': case, 'expected': exp, 'observed': obs}
         res['digest'] = rig.sim.digest.hexdigest() + repr(sorted(obs.items()))
         bad = []
+        if had_buf and not closed_now and prov.dul_socket is not None and \
+                bytes(getattr(prov, 'raw_pdu', b'')) != marker:
+            bad.append('receive-buffer-touched')
         if exp is None:
             # undefined cell: no effect at all (raising is fine)
             if wire:
